@@ -521,5 +521,165 @@ theorem doExpose_ok (t : Tree) (beh : Id → Rect → List DrawOp) (pens : Array
             have := hr win rect sl.1 L C h1 (by rw [hloop.xl, hloop.xc, h0xl, h0xc]; exact hsub L C hwr)
             rw [this, hloop.xl, hloop.xc, h0xl, h0xc]
 
+/-! ### the loop over the damage rectangles in `tickit_window_flush` -/
+
+/-- The state of the render buffer between two damage rectangles: nothing saved, nothing masked, no translation,
+    clip = the whole buffer. -/
+structure Neutral (rb : RB) : Prop where
+  stack : rb.stack = []
+  masks : rb.masks = []
+  xl : rb.xl = 0
+  xc : rb.xc = 0
+  clip : rb.clip = ⟨0, 0, rb.lines, rb.cols⟩
+
+theorem neutral_new (lines cols : Int) : Neutral (RB.new lines cols) := ⟨rfl, rfl, rfl, rfl, rfl⟩
+
+theorem Neutral.writable {rb : RB} (h : Neutral rb) (L C : Int) : rb.writable L C = rb.bounds.memb L C := by
+  simp only [RB.writable, RB.inClip, RB.masked, h.masks, h.clip, RB.bounds, List.any_nil, Bool.not_false, Bool.and_true]
+  cases hm : (⟨0, 0, rb.lines, rb.cols⟩ : Rect).memb L C with
+  | false => simp
+  | true =>
+    have := (memb_true_iff _ _ _).1 hm
+    simp only [Rect.Mem, Rect.bottom, Rect.right] at this
+    simp; omega
+
+/-- What `exposeRects … rects s = .ok s'` guarantees when started between two damage rectangles. -/
+structure RectsOk (t : Tree) (beh : Id → Rect → List DrawOp) (content : Id → Int → Int → Cell)
+    (fuel : Nat) (rects : List Rect) (s s' : RB × List Shot) : Prop where
+  neutral : Neutral s'.1
+  lines : s'.1.lines = s.1.lines
+  cols : s'.1.cols = s.1.cols
+  shots : ∃ new, s'.2 = s.2 ++ new ∧
+    (∀ sh ∈ new, ∀ L C, sh.rb.writable L C = true →
+      s.1.bounds.memb L C = true ∧ (∃ ρ ∈ rects, ρ.memb L C = true) ∧
+      ownerSub t fuel 0 L C = (sh.win, L - sh.rb.xl, C - sh.rb.xc)) ∧
+    (∀ L C, s.1.bounds.memb L C = true → (∃ ρ ∈ rects, ρ.memb L C = true) → ∃ sh ∈ new, sh.rb.writable L C = true)
+  frame : ∀ L C, (s.1.bounds.memb L C = false ∨ ∀ ρ ∈ rects, ρ.memb L C = false) → s'.1.cells L C = s.1.cells L C
+  content : Repaints content beh → ∀ L C, s.1.bounds.memb L C = true → (∃ ρ ∈ rects, ρ.memb L C = true) →
+    s'.1.cells L C = some (content (ownerSub t fuel 0 L C).1 (ownerSub t fuel 0 L C).2.1 (ownerSub t fuel 0 L C).2.2)
+
+theorem exposeRects_ok (t : Tree) (beh : Id → Rect → List DrawOp) (pens : Array (Option Pen))
+    (content : Id → Int → Int → Cell) (fuel : Nat) :
+    ∀ (rects : List Rect) (s s' : RB × List Shot),
+      exposeRects beh t pens fuel rects s = .ok s' → Neutral s.1 → RectsOk t beh content fuel rects s s' := by
+  intro rects
+  induction rects with
+  | nil =>
+    intro s s' h hn
+    simp only [exposeRects] at h
+    cases h
+    exact { neutral := hn, lines := rfl, cols := rfl
+            shots := ⟨[], ⟨(by simp), ⟨fun sh hsh => (by cases hsh), fun L C _ h => (by simp at h)⟩⟩⟩
+            frame := fun _ _ _ => rfl
+            content := fun _ L C _ h => (by simp at h) }
+  | cons ρ rest ih =>
+    intro s s' h hn
+    simp only [exposeRects] at h
+    generalize hrb1 : (s.1.save).clipTo ρ = rb1 at h
+    cases hd : doExpose beh t pens fuel 0 ρ (rb1, s.2) with
+    | ub w => rw [hd] at h; cases h
+    | ok s1 =>
+      rw [hd] at h
+      simp only [bind, Bind.bind] at h
+      have h1stack : rb1.stack = { xl := s.1.xl, xc := s.1.xc, clip := s.1.clip, pen := s.1.pen, penOnly := false } :: s.1.stack := by
+        rw [← hrb1]; simp [RB.save]
+      have h1masks : rb1.masks = [] := by rw [← hrb1]; simp [RB.save, hn.masks]
+      have h1xl : rb1.xl = 0 := by rw [← hrb1]; simp [RB.save, hn.xl]
+      have h1xc : rb1.xc = 0 := by rw [← hrb1]; simp [RB.save, hn.xc]
+      have h1cells : rb1.cells = s.1.cells := by rw [← hrb1]; simp [RB.save]
+      have h1lines : rb1.lines = s.1.lines := by rw [← hrb1]; simp [RB.save]
+      have h1cols : rb1.cols = s.1.cols := by rw [← hrb1]; simp [RB.save]
+      have h1w : ∀ L C, rb1.writable L C = (s.1.bounds.memb L C && ρ.memb L C) := by
+        intro L C
+        rw [← hrb1, writable_clipTo, writable_save, hn.writable, memb_translate]
+        simp [RB.save, hn.xl, hn.xc]
+      have hm1 : MasksLe rb1 := by intro m hm; rw [h1masks] at hm; cases hm
+      have hsub1 : ∀ L C, rb1.writable L C = true → ρ.memb (L - rb1.xl) (C - rb1.xc) = true := by
+        intro L C hw
+        rw [h1w, Bool.and_eq_true] at hw
+        rw [h1xl, h1xc]; simpa using hw.2
+      have hch := doExpose_ok t beh pens content fuel 0 ρ (rb1, s.2) s1 hd hm1 hsub1
+      obtain ⟨mc, hmc, hmcd⟩ := hch.masks
+      have hst1 : s1.1.stack = { xl := s.1.xl, xc := s.1.xc, clip := s.1.clip, pen := s.1.pen, penOnly := false } :: s.1.stack := by
+        rw [hch.stack]; exact h1stack
+      obtain ⟨hr_xl, hr_xc, hr_clip, hr_pen, hr_stack, hr_cells, hr_lines, hr_cols, hr_masks⟩ :=
+        restore_of_save_frame s.1 s1.1 s.1.stack hst1
+      have hr_masks' : s1.1.restore.masks = [] := by
+        rw [hr_masks, hmc]
+        simp only at hmcd
+        rw [h1masks, hn.stack]
+        simp only [List.append_nil, List.length_nil]
+        apply List.filter_eq_nil_iff.mpr
+        intro x hx
+        have := hmcd x hx
+        rw [h1stack] at this
+        simp at this ⊢
+        omega
+      have hn3 : Neutral s1.1.restore :=
+        { stack := by rw [hr_stack, hn.stack]
+          masks := hr_masks'
+          xl := by rw [hr_xl, hn.xl]
+          xc := by rw [hr_xc, hn.xc]
+          clip := by rw [hr_clip, hn.clip, hr_lines, hr_cols, hch.lines, hch.cols, h1lines, h1cols] }
+      have hb3 : (s1.1.restore).bounds = s.1.bounds := by
+        simp only [RB.bounds, hr_lines, hr_cols, hch.lines, hch.cols, h1lines, h1cols]
+      have hrest := ih (s1.1.restore, s1.2) s' h hn3
+      obtain ⟨newc, hnewc, hsoundc, hcompc⟩ := hch.shots
+      obtain ⟨newr, hnewr, hsoundr, hcompr⟩ := hrest.shots
+      simp only at hnewc hsoundc hcompc hnewr hsoundr hcompr
+      rw [hb3] at hsoundr hcompr
+      refine { neutral := hrest.neutral
+               lines := by rw [hrest.lines]; simp only [hr_lines, hch.lines, h1lines]
+               cols := by rw [hrest.cols]; simp only [hr_cols, hch.cols, h1cols]
+               shots := ⟨newc ++ newr, by rw [hnewr, hnewc, List.append_assoc], ?_, ?_⟩
+               frame := ?_
+               content := ?_ }
+      · intro sh hsh L C hw
+        rcases List.mem_append.1 hsh with hsh | hsh
+        · have := hsoundc sh hsh L C hw
+          rw [h1w, Bool.and_eq_true, h1xl, h1xc] at this
+          refine ⟨this.1.1, ⟨ρ, List.mem_cons_self, this.1.2⟩, ?_⟩
+          simpa using this.2
+        · have := hsoundr sh hsh L C hw
+          obtain ⟨h1, ⟨ρ', hρ', hm'⟩, h3⟩ := this
+          exact ⟨h1, ⟨ρ', List.mem_cons_of_mem _ hρ', hm'⟩, h3⟩
+      · intro L C hb ⟨ρ', hρ', hm'⟩
+        rcases List.mem_cons.1 hρ' with rfl | hρ'
+        · obtain ⟨sh, hsh, hshw⟩ := hcompc L C (by rw [h1w, hb, hm']; rfl)
+          exact ⟨sh, List.mem_append_left _ hsh, hshw⟩
+        · obtain ⟨sh, hsh, hshw⟩ := hcompr L C hb ⟨ρ', hρ', hm'⟩
+          exact ⟨sh, List.mem_append_right _ hsh, hshw⟩
+      · intro L C hout
+        have h1 : rb1.writable L C = false := by
+          rw [h1w]
+          rcases hout with hb | hall
+          · rw [hb]; rfl
+          · rw [hall ρ List.mem_cons_self]; simp
+        have h2 := hrest.frame L C (by
+          rw [hb3]
+          rcases hout with hb | hall
+          · exact Or.inl hb
+          · exact Or.inr (fun ρ' hρ' => hall ρ' (List.mem_cons_of_mem _ hρ')))
+        simp only at h2
+        rw [h2, hr_cells, hch.frame L C h1, h1cells]
+      · intro hr L C hb ⟨ρ', hρ', hm'⟩
+        by_cases hin : ∃ ρ'' ∈ rest, ρ''.memb L C = true
+        · exact hrest.content hr L C (by rw [hb3]; exact hb) hin
+        · have hall : ∀ ρ'' ∈ rest, ρ''.memb L C = false := by
+            intro ρ'' hρ''
+            cases hh : ρ''.memb L C with
+            | false => rfl
+            | true => exact absurd ⟨ρ'', hρ'', hh⟩ hin
+          have hρ : ρ.memb L C = true := by
+            rcases List.mem_cons.1 hρ' with rfl | hρ'
+            · exact hm'
+            · rw [hall ρ' hρ'] at hm'; cases hm'
+          have h2 := hrest.frame L C (Or.inr hall)
+          simp only at h2
+          rw [h2, hr_cells]
+          have := hch.content hr L C (by rw [h1w, hb, hρ]; rfl)
+          simp only [h1xl, h1xc, Int.sub_zero] at this
+          exact this
+
 end WinFlush
 end Tickit
